@@ -82,7 +82,7 @@ class ParsedContract(object):
         self.canaries = []
         self.pre = []           # ordered entry clauses: requires / split / use / unfold
         for kind, call in clauses:
-            if kind in ('requires', 'split', 'use', 'unfold'):
+            if kind in ('requires', 'split', 'use', 'unfold', 'cases'):
                 self.pre.append((kind, call))
             if kind == 'requires':
                 self.requires.append(call.args[0])
@@ -99,6 +99,8 @@ class ParsedContract(object):
                 self.raises.append((call.args[0], when, ens))
             elif kind in ('use', 'unfold'):
                 self.uses.append(call)
+            elif kind == 'cases':
+                pass
             elif kind == 'split':
                 self.splits.append(call.args)
             elif kind == 'autosplit':
@@ -620,6 +622,22 @@ def run_path(I, fn, cdef, pc):
             d = I.choice(len(conds), conds)
             I.st.pc.append(conds[d])
             I.learn(t, lo + d)
+            continue
+        if kind == 'cases':
+            I.pure += 1
+            try:
+                cs = []
+                for a in call.args:
+                    bt = I.bool_term(I.eval(a))
+                    cs.append(z3.BoolVal(bt) if isinstance(bt, bool) else bt)
+            finally:
+                I.pure -= 1
+            d = I.choice(len(cs) + 1, cs + [z3.Not(z3.Or(*cs))])
+            if d == len(cs):
+                I.assume(z3.Not(z3.Or(*cs)))
+                I.oblige(False, 'cases', 'case split is exhaustive', cdef.name)
+                raise PathEnd()
+            I.assume(cs[d])
             continue
         I.pure += 1
         try:
